@@ -121,6 +121,7 @@ def huge_value_routines():
     tleaf = {"name": "synth", "type": None, "input_params": ["eps", "k"], "local_variables": [], "linked_params": [], "ports": [],
              "resources": [{"name": "err", "type": "additive", "value": E.op("mul", E.sym("k"), E.sym("eps"))},
                            {"name": "angle", "type": "other", "value": E.op("div", E.sym("eps"), E.num(3))},
+                           {"name": "seventh", "type": "other", "value": E.op("div", E.sym("eps"), E.num(7))},
                            {"name": "T", "type": "additive", "value": E.op("add", E.op("mul", E.sym("k"), E.num(7)), E.num(1))}],
              "connections": [], "repetition": None, "children": []}
     troot = {"name": "tinyroot", "type": None, "input_params": ["eps", "k"], "local_variables": [],
@@ -251,8 +252,16 @@ def emit(pairs):
         if case["routine"]["name"] == "tinyroot":
             inex = "false"      # values far below one: compared RELATIVELY (to 12 digits), an absolute tolerance would accept 0
         self_ref = "true" if case["mode"] == "expr" else "false"
-        items.append(f"(check_eval_case c{k} {env_to_coq(case['assign'])} {fm_to_coq(case.get('functions', []))} {self_ref} "
-                     f"e1_{k} e2_{k} e3_{k} {inex} {pts})")
+        item = (f"(check_eval_case c{k} {env_to_coq(case['assign'])} {fm_to_coq(case.get('functions', []))} {self_ref} "
+                f"e1_{k} e2_{k} e3_{k} {inex} {pts})")
+        if case["routine"]["name"] == "tinyroot":
+            # ... and to 15 SIGNIFICANT digits: the reported angle = eps/3 and err = k*eps against their exact values
+            a = dict((kk, value_expr(v)) for kk, v in case["assign"])
+            eps, kq = Fraction(a["eps"][1], a["eps"][2]), Fraction(a["k"][1], a["k"][2])
+            q = lambda fr: f"({fr.numerator} # {fr.denominator})"
+            item = (f"(let r := {item} in (fst r, (snd r ++ [sig15 e1_{k} \"synth\" \"angle\" {q(eps / 3)}; "
+                    f"sig15 e1_{k} \"synth\" \"seventh\" {q(eps / 7)}; sig15 e1_{k} \"synth\" \"err\" {q(kq * eps)}])%list))")
+        items.append(item)
     lines.append("Definition results : list (list nat * list nat) :=\n " + E.coq_list(items) + ".\n")
     lines.append("Eval vm_compute in results.\n")
     return "\n".join(lines)
